@@ -26,6 +26,7 @@ OPS = {
     "gen": "the definitions generated from dsw/operation.py by harness/py2lean.py (DswModel.Gen.Operation)",
     "rna": "remove_nasty_arc", "flt": "LocalBioFilter.__init__/valid", "cap": "approximate_capacity (power iteration)",
     "capf": "approximate_capacity in double precision, operation by operation (Model/CapacityF.lean), compared bit for bit",
+    "capr": "approximate_capacity, randomised mode, seeded: MT19937 + start vectors + double-precision iteration all in the model",
     "fop": "the float primitives of the Python fragment (Model/Float.lean)",
 }
 
